@@ -413,7 +413,14 @@ func DeserializeNode(data []byte) (Node, error) {
 	if pNode.Branch != nil {
 		branchNode := routingNode{}
 		branchNode.hash = pNode.Branch.Hash
+		if len(pNode.Branch.Children) > branchNodeLength {
+			return nil, errors.New("invalid branch node")
+		}
 		for i, child := range pNode.Branch.Children {
+			if len(child) > hashWithWeightLength && len(child) < hashWithWeightLength+32 {
+				// an embedded short node needs its value hash after hash and weight
+				return nil, errors.New("invalid branch child")
+			}
 			if len(child) >= hashWithWeightLength {
 				childHash := child[:32]
 				childWeight := binary.BigEndian.Uint64(child[32:])
